@@ -387,6 +387,13 @@ def _filter_problem(ctx, unit, value: ast.AST) -> Optional[str]:
                         return f"filter `{norm(cond)}` may drop closeable iterators"
         if isinstance(sub, ast.Subscript) and isinstance(sub.slice, ast.Slice):
             return f"slice `{norm(sub)}`"
+        if isinstance(sub, ast.Call) and norm(sub.func) == "filter" and len(sub.args) == 2 and not sub.keywords:
+            # ``filter(predicate, xs)``: the predicate applied to a closeable async iterator must say "keep"
+            probe = ast.copy_location(ast.Call(func=sub.args[0], args=[ast.Name(id="<element>", ctx=ast.Load())], keywords=[]), sub)
+            ast.fix_missing_locations(probe)
+            vals = abstract_values(ctx, unit, _CloseableOps(), probe, {})
+            if vals != {True}:
+                return f"filter(`{norm(sub.args[0])}`, ...) may drop closeable iterators"
     return None
 
 
